@@ -154,3 +154,148 @@ fn c16_kf_offtout_i64_min() {
     let b = zu::offtout(v);
     assert!(zu::offtin(b) == v, "KF: offtout(i64::MIN) negates with overflow (panic in debug builds; in release builds the value is written as negative zero and read back as 0)");
 }
+
+// ---- hand-made patches: concrete structure, symbolic bytes ----------------------------------------------
+// The simple builder never references `old` (everything is extra data), so the diff / seek arithmetic of
+// both patchers and the final size check are exercised on patches assembled here through the real writers
+// (ZbsdiffHeader::write_options, ControlBlock::to_compressed, compress_zlib = identity).
+use cascette_formats::zbsdiff::{ZBSDIFF1_SIGNATURE, ZbsdiffHeader, compress_zlib};
+
+/// `ctrl` = (diff_size, extra_size, seek) per entry; `delta` is added to the true output length in the header.
+pub fn handmade<const OL: usize, const DL: usize, const EL: usize>(ctrl: &[(i64, i64, i64)], delta: i64) {
+    use binrw::BinWrite;
+    let old: [u8; OL] = kani::any();
+    let diff: [u8; DL] = kani::any();
+    let extra: [u8; EL] = kani::any();
+    let i: usize = kani::any();
+
+    // reference bspatch (textbook): out = old[pos..] + diff bytes, then extra bytes, then pos += seek;
+    // reads outside the old file yield 0
+    let mut want = [0u8; 8];
+    let (mut n, mut dp, mut ep, mut pos) = (0usize, 0usize, 0usize, 0i64);
+    let mut k = 0;
+    while k < ctrl.len() {
+        let (d, e, sk) = ctrl[k];
+        let mut t = 0;
+        while t < d {
+            let ob = if pos >= 0 && (pos as usize) < OL { old[pos as usize] } else { 0 };
+            want[n] = ob.wrapping_add(diff[dp]);
+            n += 1;
+            dp += 1;
+            pos += 1;
+            t += 1;
+        }
+        let mut t = 0;
+        while t < e {
+            want[n] = extra[ep];
+            n += 1;
+            ep += 1;
+            t += 1;
+        }
+        pos += sk;
+        if pos < 0 {
+            pos = 0; // both patchers saturate at the start of the old file
+        }
+        k += 1;
+    }
+    let actual = n;
+    let out_size = actual as i64 + delta;
+
+    // assemble the patch with the real writers
+    let mut entries = Vec::new();
+    let mut k = 0;
+    while k < ctrl.len() {
+        entries.push(ControlEntry::new(ctrl[k].0, ctrl[k].1, ctrl[k].2));
+        k += 1;
+    }
+    let blk = match ControlBlock::with_entries(entries) {
+        Ok(b) => b,
+        Err(e) => {
+            std::mem::forget(e);
+            assert!(false, "valid control entries rejected");
+            return;
+        }
+    };
+    let (cc, dc, ec) = match (blk.to_compressed(), compress_zlib(&diff), compress_zlib(&extra)) {
+        (Ok(a), Ok(b), Ok(c)) => (a, b, c),
+        other => {
+            std::mem::forget(other);
+            assert!(false, "block serialisation failed");
+            return;
+        }
+    };
+    let header = ZbsdiffHeader { signature: ZBSDIFF1_SIGNATURE, control_size: cc.len() as i64, diff_size: dc.len() as i64, output_size: out_size };
+    let mut patch: Vec<u8> = Vec::new();
+    {
+        let mut cur = Cursor::new(&mut patch);
+        let r = header.write_options(&mut cur, binrw::Endian::Little, ());
+        assert!(r.is_ok(), "header write failed");
+        std::mem::forget(r);
+    }
+    patch.extend_from_slice(&cc);
+    patch.extend_from_slice(&dc);
+    patch.extend_from_slice(&ec);
+    // (native replay runs the real zlib, so the identity-sized layout only holds under the stubs)
+    assert!(cfg!(vreplay) || patch.len() == 32 + 24 * ctrl.len() + DL + EL, "patch layout: 32-byte header + 24 bytes per control entry + blocks");
+
+    let mem = apply_patch_memory(&old, &patch);
+    let stream = ZbsdiffPatcher::new(Cursor::new(&old[..]), out_size as usize).with_buffer_size(1).apply_patch_from_data(&patch);
+    if delta == 0 {
+        match &mem {
+            Ok(v) => {
+                assert!(v.len() == actual, "memory patcher: result length differs from the header's output_size");
+                assert!(i >= actual || v[i] == want[i], "memory patcher: result differs from the bspatch model");
+            }
+            Err(_) => assert!(false, "memory patcher rejects a well-formed patch"),
+        }
+        match &stream {
+            Ok(v) => {
+                assert!(v.len() == actual, "streaming patcher: result length differs from the header's output_size");
+                assert!(i >= actual || v[i] == want[i], "streaming patcher: result differs from the bspatch model");
+            }
+            Err(_) => assert!(false, "streaming patcher rejects a well-formed patch"),
+        }
+    } else {
+        assert!(mem.is_err(), "memory patcher returned Ok although the produced length differs from the header's output_size");
+        assert!(stream.is_err(), "streaming patcher returned Ok although the produced length differs from the expected output size");
+    }
+    // one witness per harness (only one of the two branches above is live for a given delta)
+    let witness = if delta == 0 { mem.is_ok() && stream.is_ok() && actual >= 1 && i == actual - 1 } else { mem.is_err() && stream.is_err() };
+    kani::cover!(witness, "both patchers succeed with the last byte observed / both reject the wrong size");
+    std::mem::forget(mem);
+    std::mem::forget(stream);
+    std::mem::forget(patch);
+    std::mem::forget((cc, dc, ec));
+    std::mem::forget(blk);
+}
+
+macro_rules! c16_hm {
+    ($name:ident, $ol:expr, $dl:expr, $el:expr, [$( ($d:expr, $e:expr, $s:expr) ),+], $delta:expr) => {
+        #[kani::proof]
+        #[kani::unwind(8)]
+        #[kani::stub(cascette_formats::zbsdiff::utils::compress_zlib, zlib_identity)]
+        #[kani::stub(cascette_formats::zbsdiff::utils::decompress_zlib, zlib_identity)]
+        #[kani::stub(std::fmt::format, fmt_format_empty)]
+        fn $name() {
+            handmade::<$ol, $dl, $el>(&[$( ($d, $e, $s) ),+], $delta);
+        }
+    };
+}
+
+// @family prop=C16 tier=quick timeout=600 role=handmade-patch-apply
+// @bounds patch structure concrete per harness (a: old 1, {diff 1}; b: old 2, {diff 2, extra 1}; c: old 3, {diff 1, seek +1},{diff 1, extra 1} — second diff reads the LAST old byte; n: old 2, {diff 2, seek -2},{diff 1, extra 1} — negative seek; z: old 1, {diff 2} — diff block running past the end of old reads 0); every old / diff / extra byte symbolic; header output_size = true length + delta (name suffix: ok = 0, short = -1, long = +1); observed byte index symbolic
+// @encodes cascette_formats::zbsdiff::apply_patch_memory, cascette_formats::zbsdiff::patcher::apply_patch_with_data, cascette_formats::zbsdiff::ZbsdiffPatcher::apply_patch_from_data, cascette_formats::zbsdiff::ZbsdiffPatcher::apply_patch, cascette_formats::zbsdiff::ZbsdiffPatcher::apply_diff_block, cascette_formats::zbsdiff::ZbsdiffPatcher::copy_extra_block, cascette_formats::zbsdiff::ZbsdiffPatcher::read_old_chunk, cascette_formats::zbsdiff::ZbsdiffPatcher::apply_seek_offset, cascette_formats::zbsdiff::ZbsdiffPatcher::get_old_file_size, cascette_formats::zbsdiff::ControlBlock::from_compressed, cascette_formats::zbsdiff::ControlBlock::to_compressed, cascette_formats::zbsdiff::ZbsdiffHeader::validate, cascette_formats::zbsdiff::utils::read_old_byte_at, cascette_formats::zbsdiff::utils::apply_diff_byte
+// @assumes compress_zlib / decompress_zlib = identity copy; fmt::format off; streaming buffer = 1 KiB minimum; the streaming patcher is given the header's output_size as its expected size
+// @catches old-file bound off by one in either patcher (last old byte read as 0), diff added with the wrong operand / subtracted, seek applied before the extra block or with the wrong sign, old position not advanced by the diff length, final size check < or > instead of != (over-long or short result accepted), memory and streaming patcher disagreeing
+c16_hm!(c16_handmade_a_ok, 1, 1, 0, [(1, 0, 0)], 0);
+c16_hm!(c16_handmade_b_ok, 2, 2, 1, [(2, 1, 0)], 0);
+c16_hm!(c16_handmade_c_ok, 3, 2, 1, [(1, 0, 1), (1, 1, 0)], 0);
+c16_hm!(c16_handmade_n_ok, 2, 3, 1, [(2, 0, -2), (1, 1, 0)], 0);
+c16_hm!(c16_handmade_z_ok, 1, 2, 0, [(2, 0, 0)], 0);
+c16_hm!(c16_handmade_a_short, 1, 1, 0, [(1, 0, 0)], -1);
+c16_hm!(c16_handmade_a_long, 1, 1, 0, [(1, 0, 0)], 1);
+c16_hm!(c16_handmade_b_short, 2, 2, 1, [(2, 1, 0)], -1);
+c16_hm!(c16_handmade_b_long, 2, 2, 1, [(2, 1, 0)], 1);
+c16_hm!(c16_handmade_c_short, 3, 2, 1, [(1, 0, 1), (1, 1, 0)], -1);
+c16_hm!(c16_handmade_c_long, 3, 2, 1, [(1, 0, 1), (1, 1, 0)], 1);
+// @end
